@@ -6,7 +6,7 @@ import warnings
 import pysmt.environment
 import pysmt.operators as op
 from pysmt.solvers.eager import EagerModel
-from pysmt.typing import BOOL, INT, STRING, BVType, ArrayType
+from pysmt.typing import BOOL, INT, REAL, STRING, BVType, ArrayType
 
 from . import gen_all, lib, refeval, tocoq
 from . import c01 as S        # literal emission, order oracle and case-file plumbing of the simplifier model
@@ -228,21 +228,35 @@ def run(tier):
                                    "formula": S.ser(f), "assignment": {str(k): S.ser(x) for k, x in assignment.items()}},
                                   key="sat-wrong:" + key)
             elif v is not None and not completion:
-                # partial assignment: a returned value must hold for every completion (sampled)
+                # partial assignment: a returned value must hold for EVERY completion of the unassigned symbols:
+                # all of them when they are Bool / BV of at most 4 bits with at most 256 combinations, else the boundary
+                # values (0, +-1, all-ones, min / max signed, neighbours of the constants in the formula and in the
+                # model) uniformly and at random, plus random completions
                 stats["partial_calls"] += 1
                 got = refeval.evaluate_ex(v, refeval.Interp({}))[0]
+                vals = {s: refeval.evaluate_ex(c, refeval.Interp({}))[0] for s, c in assignment.items()}
+                missing = [s for s in f.get_free_variables() if s not in assignment]
+                base = refeval.random_interp(rnd, [f])
+                comps = S.boundary_assignments(missing, S.formula_constants([f] + list(assignment.values())), rnd, base, 256, 24)
                 for _ in range(4):
-                    base = refeval.random_interp(rnd, [f])
-                    vals = {s: refeval.evaluate_ex(c, refeval.Interp({}))[0] for s, c in assignment.items()}
-                    J = refeval.interp_updated(base, vals)
+                    rb = refeval.random_interp(rnd, [f])
+                    comps.append(dict((s, rb.value(s)) for s in missing))
+                stats["completions_checked"] = stats.get("completions_checked", 0) + len(comps)
+                for comp in comps:
+                    upd = dict(vals)
+                    upd.update(comp)
+                    J = refeval.interp_updated(base, upd)
                     try:
                         ev, exact = refeval.evaluate_ex(f, J)
                     except refeval.DivisionByZeroEvaluated:
                         continue
                     stats["oracle_evaluations"] += 1
                     if ev != got:
-                        chk.violation({"kind": "input", "what": "get_value without completion returned %s, but a completion gives %r" % (v.serialize(), ev),
-                                       "formula": f.serialize(), "assignment": {str(k): str(x) for k, x in assignment.items()}}, key="gv-partial:" + key)
+                        chk.violation({"kind": "input", "what": "get_value without completion returned %s, but the completion %s gives %r"
+                                                                 % (S.ser(v), {str(k): repr(x) for k, x in comp.items()}, ev),
+                                       "formula": S.ser(f), "assignment": {str(k): S.ser(x) for k, x in assignment.items()},
+                                       "counter_completion": {str(k): repr(x) for k, x in comp.items()},
+                                       "returned": S.ser(v), "value_under_completion": repr(ev)}, key="gv-partial:" + key)
                         break
         except refeval.DivisionByZeroEvaluated:
             stats["div0_skipped"] += 1
@@ -348,6 +362,113 @@ def run(tier):
             fam["by_depth"][len(ch)] = fam["by_depth"].get(len(ch), 0) + len(rows) - before
     fam["cases"] = len(rows) - n0
     chk.cov["family_finite_index_arrays"] = fam
+    # ---------------- partial assignments, no completion: absorbing-looking constants ----------
+    # one operand is a symbol the model assigns to a constant that LOOKS absorbing for the operator (0, 1, all-ones,
+    # min / max signed, "", TRUE / FALSE, a constant array), the other operand is an unassigned symbol or a term over
+    # one; also one level under Ite / And / Or / Equals / arithmetic.  get_value(..., model_completion=False) must
+    # raise or return a value that is right for EVERY completion (checked above, exhaustively at these widths).
+    n0 = len(rows)
+    pstat = {"returned_a_value": 0}
+    before_calls = stats["partial_calls"]
+    with S.EnvCtx() as env:
+        m = env.formula_manager
+        p_, q_ = m.Symbol("pp", BOOL), m.Symbol("pq", BOOL)
+        i_, j_, k_ = m.Symbol("pi", INT), m.Symbol("pj", INT), m.Symbol("pk", INT)
+        r_, t_ = m.Symbol("pr", REAL), m.Symbol("pt", REAL)
+        sx, sy = m.Symbol("psx", STRING), m.Symbol("psy", STRING)
+
+        def wrap(f, kx):
+            """f one level under another operator (the wrapper's other operands are constants)"""
+            t = f.get_type()
+            if t.is_bool_type():
+                return [m.Ite(f, m.Int(1), m.Int(2)), m.And(f, m.TRUE()), m.Or(f, m.FALSE()), m.Not(f), m.Iff(f, m.TRUE()), m.Implies(m.TRUE(), f)][kx % 6]
+            if t.is_bv_type():
+                w = t.width
+                return [m.Equals(f, m.BV(0, w)), m.BVULE(f, m.BV((1 << w) - 1, w)), m.BVAdd(f, m.BV(0, w)), m.Ite(m.TRUE(), f, m.BV(0, w))][kx % 4]
+            if t.is_int_type():
+                return [m.Equals(f, m.Int(0)), m.Plus(f, m.Int(0)), m.Times(f, m.Int(1)), m.LE(f, m.Int(0))][kx % 4]
+            if t.is_real_type():
+                return [m.Equals(f, m.Real(0)), m.Plus(f, m.Real(0)), m.Times(f, m.Real(1))][kx % 3]
+            if t.is_string_type():
+                return [m.StrLength(f), m.Equals(f, m.String("")), m.StrConcat(f, m.String(""))][kx % 3]
+            return m.Equals(f, f)
+
+        cases = []         # (formula, assignment)
+        for w in ((2, 4) if tier == "quick" else (1, 2, 3, 4)):
+            x, y, z = m.Symbol("px%d" % w, BVType(w)), m.Symbol("py%d" % w, BVType(w)), m.Symbol("pz%d" % w, BVType(w))
+            mx = (1 << w) - 1
+            consts = []
+            for v in (0, 1, mx, 1 << (w - 1), (1 << (w - 1)) - 1):
+                if v not in consts:
+                    consts.append(v)
+            bins = [m.BVAnd, m.BVOr, m.BVXor, m.BVAdd, m.BVSub, m.BVMul, m.BVUDiv, m.BVURem, m.BVLShl, m.BVLShr, m.BVAShr,
+                    m.BVSDiv, m.BVSRem, m.BVULT, m.BVULE, m.BVSLT, m.BVSLE, m.BVComp, m.BVConcat, m.Equals]
+            others = [x, m.BVAdd(x, m.BV(1 & mx, w)), m.Ite(p_, x, z), m.BVNot(x)]
+            if w > 1:
+                others.append(m.BVConcat(m.BVExtract(x, w - 1, w - 1), m.BVExtract(x, 0, w - 2)))
+            nrel = 7                     # the last 7 of bins: relations, comp, concat, equals
+            for bi, b in enumerate(bins):
+                rel = bi >= len(bins) - nrel
+                for c in consts:
+                    asg = {y: m.BV(c, w)}
+                    if tier != "quick":
+                        os_ = others
+                    elif w == 4:
+                        os_ = others if rel else others[:2]
+                    else:
+                        os_ = others[:1] if rel else []
+                    for o in os_:
+                        cases.append((b(o, y), asg))
+                        cases.append((b(y, o), asg))
+        for b in (m.And, m.Or, m.Implies, m.Iff):
+            for c in (m.TRUE(), m.FALSE()):
+                for o in (p_, m.Not(p_), m.And(p_, q_)):
+                    cases += [(b(o, q_) if b in (m.Implies, m.Iff) else b(o, q_), {q_: c})]
+        for c in (m.TRUE(), m.FALSE()):
+            cases += [(m.And(p_, q_), {q_: c}), (m.Or(p_, q_), {q_: c}), (m.Implies(p_, q_), {q_: c}), (m.Implies(q_, p_), {q_: c}),
+                      (m.Iff(p_, q_), {q_: c}), (m.Ite(q_, p_, m.TRUE()), {q_: c}), (m.Ite(q_, i_, j_), {q_: c, j_: m.Int(3)}),
+                      (m.Ite(p_, i_, j_), {i_: m.Int(3), j_: m.Int(3)}), (m.Ite(q_, p_, p_), {q_: c})]
+        for (u, v2, K, zero) in ((i_, j_, m.Int, m.Int(0)), (r_, t_, m.Real, m.Real(0))):
+            for cz in ((0, 1, -1) if tier == "quick" else (0, 1, -1, 2)):
+                asg = {v2: K(cz)}
+                for o in ((u, m.Plus(u, K(1))) if tier == "quick" else (u, m.Plus(u, K(1)), m.Ite(p_, u, K(cz)), m.Times(u, u))):
+                    for b in (m.Plus, m.Minus, m.Times, m.Div, m.LE, m.LT, m.Equals):
+                        cases.append((b(o, v2), asg))
+                        cases.append((b(v2, o), asg))
+                cases += [(m.Pow(v2, K(2)), {}), (m.Pow(m.Plus(u, v2), K(0)), asg), (m.Ite(m.LE(u, v2), v2, v2), asg)]
+        cases += [(m.ToReal(m.Times(i_, j_)), {j_: m.Int(0)}), (m.Times(i_, j_, k_), {j_: m.Int(0)}), (m.Times(i_, m.Minus(j_, j_)), {}),
+                  (m.Minus(i_, i_), {}), (m.LE(i_, i_), {}), (m.LT(i_, i_), {}), (m.Equals(m.Plus(i_, j_), m.Plus(j_, i_)), {}),
+                  (m.LE(m.Times(i_, i_), j_), {j_: m.Int(-1)})]
+        for c in ("", "a"):
+            asg = {sy: m.String(c)}
+            cases += [(m.StrConcat(sx, sy), asg), (m.StrLength(m.StrConcat(sx, sy)), asg), (m.StrContains(sx, sy), asg), (m.StrContains(sy, sx), asg),
+                      (m.StrPrefixOf(sy, sx), asg), (m.StrPrefixOf(sx, sy), asg), (m.StrSuffixOf(sy, sx), asg), (m.StrSuffixOf(sx, sy), asg),
+                      (m.StrReplace(sx, sy, m.String("b")), asg), (m.StrReplace(sy, sx, m.String("b")), asg), (m.StrReplace(sx, m.String("b"), sy), asg),
+                      (m.StrIndexOf(sx, sy, m.Int(0)), asg), (m.StrIndexOf(sy, sx, m.Int(0)), asg), (m.StrIndexOf(sx, sy, i_), asg),
+                      (m.StrCharAt(sy, i_), asg), (m.StrSubstr(sy, i_, j_), asg), (m.StrSubstr(sx, i_, j_), {j_: m.Int(0)}),
+                      (m.StrSubstr(sx, i_, m.Int(1)), {i_: m.Int(-1)}), (m.StrCharAt(sx, i_), {i_: m.Int(-1)}), (m.StrToInt(sy), asg),
+                      (m.StrToInt(m.StrConcat(sx, sy)), asg), (m.Equals(sx, sy), asg), (m.StrLength(sy), asg), (m.LE(m.Int(0), m.StrLength(sx)), {}),
+                      (m.LE(m.Int(-1), m.StrToInt(sx)), {}), (m.LE(m.Int(-1), m.StrIndexOf(sx, sy, i_)), asg)]
+        A = ArrayType(INT, INT)
+        a_, b_ = m.Symbol("pa", A), m.Symbol("pb", A)
+        K0 = m.Array(INT, m.Int(0))
+        cases += [(m.Select(b_, i_), {b_: K0}), (m.Select(m.Store(a_, i_, j_), i_), {}), (m.Select(m.Store(a_, i_, j_), i_), {j_: m.Int(0)}),
+                  (m.Select(m.Store(b_, i_, m.Int(0)), j_), {b_: K0}), (m.Equals(m.Store(b_, i_, m.Int(0)), b_), {b_: K0}),
+                  (m.Equals(a_, b_), {b_: K0}), (m.Equals(m.Store(a_, m.Int(1), j_), m.Store(a_, m.Int(1), j_)), {}),
+                  (m.Select(m.Store(b_, m.Int(1), j_), m.Int(2)), {b_: K0}), (m.Select(m.Store(a_, m.Int(1), j_), m.Int(1)), {j_: m.Int(5)})]
+        seen = set()
+        kx = 0
+        for f, asg in cases:
+            key_ = (f, tuple(sorted((k.symbol_name(), v) for k, v in asg.items())))
+            if key_ in seen:
+                continue
+            seen.add(key_)
+            one(env, f, asg, False, ask_sat=False)
+            kx += 1
+            if tier != "quick" or kx % 3 == 0:
+                one(env, wrap(f, kx // 3), asg, False, ask_sat=False)       # one level under another operator
+    pstat.update({"cases": len(rows) - n0, "returned_a_value": stats["partial_calls"] - before_calls})
+    chk.cov["family_partial_no_completion"] = pstat
     # ---------------- the string hazard pool through every string operator ----------------------
     n0 = len(rows)
     with S.EnvCtx() as env:
